@@ -130,3 +130,27 @@ Section Complete.
     rewrite H in Hg. inversion Hg; auto.
   Qed.
 End Complete.
+
+(* Without the relaxation hypothesis completeness does not follow from a sound and complete engine: a compiled problem
+   that is NOT a relaxation (here: no compiled plan at all, as InterpretedFunctionsRemover produces for the open findings
+   C31-IF-EFFECT-CONDITION-READS-UNKNOWN / C31-IF-BOUNDED-STALE-VALUE) makes the loop answer UNSOLVABLE_PROVEN although
+   the original problem has a valid plan (plan 0). *)
+Lemma ifp_complete_needs_relaxation :
+  exists (planner : nat -> status * option nat) (validate : nat -> bool * unit) (update : nat -> unit -> nat)
+         (size : nat -> nat) (valid : nat -> bool) (validC : nat -> nat -> bool),
+    (forall p, fst (validate p) = valid p) /\
+    (forall k st pl, planner k = (st, pl) -> positive st = true -> exists p, pl = Some p /\ validC k p = true) /\
+    (forall k, (exists p, validC k p = true) -> positive (fst (planner k)) = true) /\
+    (forall k p, validC k p = true -> valid p = false -> size k < size (update k (snd (validate p)))) /\
+    (exists p, valid p = true) /\
+    forall fuel, ifp_loop nat nat unit planner validate update size (S fuel) 0 = Returned UnsolvProven None.
+Proof.
+  exists (fun _ => (UnsolvProven, None)), (fun p => (Nat.eqb p 0, tt)), (fun k _ => S k), (fun k => k),
+         (fun p => Nat.eqb p 0), (fun _ _ => false).
+  split; [reflexivity|]. split.
+  { intros k st pl H Hpos. inversion H; subst. discriminate. }
+  split. { intros k [p Hp]. discriminate. }
+  split. { intros; discriminate. }
+  split. { exists 0. reflexivity. }
+  intro fuel. reflexivity.
+Qed.
